@@ -117,6 +117,29 @@ CHECKS = {
             "jump law (up to the independently computed truncation leak).",
             "Arguments |Re u|<=6, |Im u| <= 0.45 x decay rate; tolerance 1e-7 of the absolute integrals; the "
             "Markov-chain route uses the rates verified by C01."),
+    "C05": ("3/C05",
+            "model-based testing of the real multilevel engine against a scripted coupling process whose ledger of "
+            "handed-out samples is the reference model; Hypothesis generates the per-level law and the configuration",
+            "Exploration: the real engine, path managers, payoffs, statistics and control variates are run on a "
+            "scripted coupling whose every sample carries an identifiable value; after every pass and at return the "
+            "per-level sample arrays must equal the ledger row for row (no placeholder, nothing dropped, duplicated "
+            "or overwritten; coarse = 0 at level 0), N_l = ledger counts, and price, ml, vl, level means/variances, "
+            "kurtosis, cl and cost are recomputed with numpy from the ledger (with controls: from textbook "
+            "regression-adjusted samples). Histories are classified by what the run did (passes, levels added late, "
+            "sample sizes doubled).",
+            "Scripted collaborator replaces only the simulator; runs bounded by 200 passes / 30000 samples "
+            "(inconclusive beyond); scalar payoffs (the MLMC results are scalar by construction)."),
+    "C06": ("3/C06",
+            "Hypothesis-generated variance/cost vectors for the allocation and bias functions (shares measured from "
+            "the functions themselves); spies on the criteria/allocation calls and the ledger for adaptive runs",
+            "Exploration: for generated vectors (zeros, tiny entries, 1..12 levels, rmse over four decades) the "
+            "allocation must satisfy sum V_l/N_l <= measured variance share x rmse^2 and measured squared bias "
+            "tolerance + variance share <= rmse^2, be monotone in V_l and leave its inputs untouched; for adaptive "
+            "runs of the real engine on the scripted coupling no sample or level above the maximum may be requested, "
+            "the run may return only if the last bias test passed or L = maximum, and only when the last allocation "
+            "(computed from the final variances) is met within the 1% rule.",
+            "'Always terminates' is only bounded: terminated within 200 passes / 30000 samples on every generated "
+            "trajectory, a budget hit is inconclusive."),
 }
 
 NOT_YET = "check not built yet in this session; will be claimed when its module exists"
